@@ -218,6 +218,37 @@ pub fn run(tier: Tier) -> i32 {
             run.violate(Some(b.key.clone()), format!("{:?}: {}", s, b.why), json!({"driver":"STR","source": s, "why": b.why}));
         }
     }
+    // --- part A2: characters no keyboard shows (byte-order mark, no-break space, zero-width space, line
+    // separator, next-line) in front of and behind every string up to a shorter length
+    {
+        const INVISIBLE: &[char] = &['\u{feff}', '\u{a0}', '\u{200b}', '\u{2028}', '\u{85}'];
+        let l2 = tier.pick(3, 4);
+        let mut srcs: Vec<String> = vec![];
+        for len in 0..=l2 {
+            let total = (ALPHA.len() as u64).pow(len as u32);
+            for i in 0..total {
+                let s = nth_string(i, len);
+                for ch in INVISIBLE {
+                    srcs.push(format!("{ch}{s}"));
+                    if len > 0 {
+                        srcs.push(format!("{s}{ch}"));
+                    }
+                }
+            }
+        }
+        let res = par_map(&srcs, || (), |_, s| check_source(s).map_err(|b| (s.clone(), b)));
+        for r in res {
+            run.count("strings_with_invisible_character", 1);
+            match r {
+                Ok((true, n)) => {
+                    run.count("strings_with_invisible_character_accepted", 1);
+                    run.count("tokens_relexed", n as u64);
+                }
+                Ok(_) => {}
+                Err((s, b)) => run.violate(Some(b.key.clone()), format!("{:?}: {}", s, b.why), json!({"driver":"STR","source": s, "why": b.why})),
+            }
+        }
+    }
     // --- part B: token pairs (and triples in thorough) with separators, via the engine
     let (cases, st) = engine::collect(0, |c| {
         let n = if tier == Tier::Thorough { 2 + c.choose(2, "ntok") } else { 2 };
